@@ -200,6 +200,8 @@ class EnumProperty(PropertyProtocol):
             else:
                 key = f"VALUE_{i}"
             sanitized_key = utils.snake_case(key).upper()
+            if not sanitized_key.isidentifier():  # nothing of the value survives as a name
+                sanitized_key = f"VALUE_{i}"
             if sanitized_key in output:
                 raise ValueError(
                     f"Duplicate key {sanitized_key} in enum {class_info.module_name}.{class_info.name}; "
